@@ -845,7 +845,67 @@ pub trait Io: tokio::io::AsyncRead + tokio::io::AsyncWrite + Send + Unpin {}
 impl<T: tokio::io::AsyncRead + tokio::io::AsyncWrite + Send + Unpin> Io for T {}
 pub type BoxIo = Box<dyn Io>;
 
+/// The write half of a peer's stream, shared between the soketto sender and `WsPeer::send_raw`
+#[derive(Clone)]
+pub struct SharedW(Arc<Mutex<tokio::io::WriteHalf<BoxIo>>>);
+
+impl tokio::io::AsyncWrite for SharedW {
+	fn poll_write(self: std::pin::Pin<&mut Self>, cx: &mut std::task::Context<'_>, buf: &[u8]) -> std::task::Poll<std::io::Result<usize>> {
+		std::pin::Pin::new(&mut *self.0.lock()).poll_write(cx, buf)
+	}
+	fn poll_flush(self: std::pin::Pin<&mut Self>, cx: &mut std::task::Context<'_>) -> std::task::Poll<std::io::Result<()>> {
+		std::pin::Pin::new(&mut *self.0.lock()).poll_flush(cx)
+	}
+	fn poll_shutdown(self: std::pin::Pin<&mut Self>, cx: &mut std::task::Context<'_>) -> std::task::Poll<std::io::Result<()>> {
+		std::pin::Pin::new(&mut *self.0.lock()).poll_shutdown(cx)
+	}
+}
+
+struct Joined {
+	r: tokio::io::ReadHalf<BoxIo>,
+	w: SharedW,
+}
+
+impl tokio::io::AsyncRead for Joined {
+	fn poll_read(mut self: std::pin::Pin<&mut Self>, cx: &mut std::task::Context<'_>, buf: &mut tokio::io::ReadBuf<'_>) -> std::task::Poll<std::io::Result<()>> {
+		std::pin::Pin::new(&mut self.r).poll_read(cx, buf)
+	}
+}
+
+impl tokio::io::AsyncWrite for Joined {
+	fn poll_write(mut self: std::pin::Pin<&mut Self>, cx: &mut std::task::Context<'_>, buf: &[u8]) -> std::task::Poll<std::io::Result<usize>> {
+		std::pin::Pin::new(&mut self.w).poll_write(cx, buf)
+	}
+	fn poll_flush(mut self: std::pin::Pin<&mut Self>, cx: &mut std::task::Context<'_>) -> std::task::Poll<std::io::Result<()>> {
+		std::pin::Pin::new(&mut self.w).poll_flush(cx)
+	}
+	fn poll_shutdown(mut self: std::pin::Pin<&mut Self>, cx: &mut std::task::Context<'_>) -> std::task::Poll<std::io::Result<()>> {
+		std::pin::Pin::new(&mut self.w).poll_shutdown(cx)
+	}
+}
+
+/// One client-to-server WebSocket frame, masked with the all-zero key (so the payload bytes stay as given)
+pub fn ws_frame(fin: bool, opcode: u8, payload: &[u8]) -> Vec<u8> {
+	let mut f = vec![(if fin { 0x80 } else { 0 }) | (opcode & 0x0f)];
+	match payload.len() {
+		n if n < 126 => f.push(0x80 | n as u8),
+		n if n < 65536 => {
+			f.push(0x80 | 126);
+			f.extend_from_slice(&(n as u16).to_be_bytes());
+		}
+		n => {
+			f.push(0x80 | 127);
+			f.extend_from_slice(&(n as u64).to_be_bytes());
+		}
+	}
+	f.extend_from_slice(&[0, 0, 0, 0]);
+	f.extend_from_slice(payload);
+	f
+}
+
 pub struct WsPeer {
+	/// raw access to the write side (hand-made frames)
+	raw: Option<SharedW>,
 	pub sender: Option<soketto::Sender<Compat<BoxIo>>>,
 	pub events: mpsc::UnboundedReceiver<WsEvent>,
 	reader: tokio::task::JoinHandle<()>,
@@ -884,6 +944,9 @@ impl ReadGate {
 impl WsPeer {
 	pub async fn connect(io: impl Io + 'static, conn_task: tokio::task::JoinHandle<()>) -> Result<WsPeer, String> {
 		let io: BoxIo = Box::new(io);
+		let (r, w) = tokio::io::split(io);
+		let raw = SharedW(Arc::new(Mutex::new(w)));
+		let io: BoxIo = Box::new(Joined { r, w: raw.clone() });
 		let mut client = soketto::handshake::Client::new(io.compat(), "localhost", "/");
 		match client.handshake().await {
 			Ok(soketto::handshake::ServerResponse::Accepted { .. }) => {}
@@ -923,7 +986,7 @@ impl WsPeer {
 				}
 			}
 		});
-		Ok(WsPeer { sender: Some(sender), events: rx, reader, conn_task, read_gate, seen: vec![] })
+		Ok(WsPeer { raw: Some(raw), sender: Some(sender), events: rx, reader, conn_task, read_gate, seen: vec![] })
 	}
 
 	pub async fn send_text(&mut self, s: &str) -> Result<(), String> {
@@ -936,6 +999,31 @@ impl WsPeer {
 		let sender = self.sender.as_mut().ok_or("closed")?;
 		sender.send_binary(b).await.map_err(|e| e.to_string())?;
 		sender.flush().await.map_err(|e| e.to_string())
+	}
+
+	/// Write hand-made bytes straight to the stream (between two soketto messages)
+	pub async fn send_raw(&mut self, bytes: &[u8]) -> Result<(), String> {
+		use tokio::io::AsyncWriteExt;
+		let mut w = self.raw.clone().ok_or("closed")?;
+		w.write_all(bytes).await.map_err(|e| e.to_string())?;
+		w.flush().await.map_err(|e| e.to_string())
+	}
+
+	/// One message sent as several frames: a first text/binary frame without FIN, continuation frames, FIN on the last
+	pub async fn send_fragmented(&mut self, payload: &[u8], text: bool, cuts: &[usize]) -> Result<(), String> {
+		let mut pos: Vec<usize> = cuts.iter().map(|c| (*c).min(payload.len())).collect();
+		pos.sort();
+		pos.dedup();
+		let mut bounds = vec![0usize];
+		bounds.extend(pos.into_iter().filter(|p| *p > 0 && *p < payload.len()));
+		bounds.push(payload.len());
+		let n = bounds.len() - 1;
+		let mut out = vec![];
+		for k in 0..n {
+			let op = if k == 0 { if text { 1 } else { 2 } } else { 0 };
+			out.extend(ws_frame(k + 1 == n, op, &payload[bounds[k]..bounds[k + 1]]));
+		}
+		self.send_raw(&out).await
 	}
 
 	/// Send bytes as a text frame when they are UTF-8 (and `prefer_text`), else as a binary frame.
@@ -968,6 +1056,7 @@ impl WsPeer {
 
 	/// clean close handshake from the peer
 	pub async fn close(&mut self) {
+		self.raw = None;
 		if let Some(mut s) = self.sender.take() {
 			let _ = s.close().await;
 		}
@@ -975,6 +1064,7 @@ impl WsPeer {
 
 	/// abrupt drop: both halves go away without a close frame
 	pub fn abort(&mut self) {
+		self.raw = None;
 		self.sender.take();
 		self.reader.abort();
 	}
